@@ -62,6 +62,15 @@ func c01Populations() []Pop {
 	add(Pop{Name: "same-name-two-namespaces", JCs: []JC{
 		{Name: "nightly", Exprs: []string{"* * * * *"}}, {Name: "nightly", NS: "team-b", Exprs: []string{"* * * * *"}},
 		{Name: "other", NS: "team-b", Exprs: []string{"*/2 * * * *"}}}})
+	// Several expressions of which one has no time left (a year that has passed), has none at all,
+	// or runs out while the scheduler runs (400 s ticks pass 00:07): the others keep firing.
+	add(Pop{Name: "multi-expr-one-exhausted", JCs: []JC{
+		{Name: "last-past", Exprs: []string{"*/4 * * * * * *", "0 0 0 1 1 * 2020"}},
+		{Name: "first-past", Exprs: []string{"0 0 1 1 * 2020", "*/6 * * * * * *"}},
+		{Name: "middle-never", Exprs: []string{"*/9 * * * * * *", "0 0 31 2 *", "*/15 * * * * * *"}},
+		{Name: "runs-out", Exprs: []string{"*/5 * * * *", "7 0 1 1 * 2060"}},
+		{Name: "all-past", Exprs: []string{"0 0 1 1 * 2020", "0 0 0 1 1 * 2021"}},
+	}})
 	add(Pop{Name: "disabled-and-nocron", JCs: []JC{{Name: "off", Exprs: []string{"* * * * * * *"}, Disabled: true}, {Name: "none", NoCron: true}, {Name: "on", Exprs: []string{"*/9 * * * * * *"}}}})
 	return pops
 }
